@@ -95,3 +95,17 @@ Theorem C05_literal_eq_refuted :
     via_object C t v = AOk (VBool true) /\ is_ok (via_argv C t s) = false /\
     guard (chk_lit as_is model_yload) t s v = true.
 Proof. exists (TLit [LInt 1; LInt 2]), [116;114;117;101]%N, (VBool true). exact literal_eq_witness. Qed.
+
+(* finding nested-item-no-string-fallback: Dict[str, str], entry k = "null" — `--key={"k": "null"}` stores it,
+   `--key.k=null` is rejected; with the retry on the entry's raw text both agree *)
+Theorem C05_nested_item_refuted :
+  exists (t : ty) (whole : str) (items : list (str * str)) (yl : str -> lres) (w : val),
+    via_argv (chk as_is yl) t whole = AOk w /\
+    is_ok (via_argv_nested as_is yl false t items) = false /\
+    via_argv_nested as_is yl true t items = AOk w.
+Proof.
+  exists (TDict false TStr), [123;34;107;34;58;32;34;110;117;108;108;34;125]%N, [([107]%N, [110;117;108;108]%N)],
+    (case_yload [([123;34;107;34;58;32;34;110;117;108;108;34;125]%N, LVal (VDict [(VStr [107]%N, VStr [110;117;108;108]%N)]))]),
+    (VDict [(VStr [107]%N, VStr [110;117;108;108]%N)]).
+  exact nested_item_witness.
+Qed.
